@@ -272,6 +272,10 @@ func init() {
 	reg("(runtime.errorString).Error", func(g *G, fr *Frame, fn *ssa.Function, a []Value) Value {
 		return strConcat(S("runtime error: "), a[0].(Str))
 	})
+	reg("(*runtime.PanicNilError).Error", func(g *G, fr *Frame, fn *ssa.Function, a []Value) Value {
+		return S("panic called with nil argument (obsolete and disabled by GODEBUG=panicnil=1)")
+	})
+	reg("(*runtime.PanicNilError).RuntimeError", func(g *G, fr *Frame, fn *ssa.Function, a []Value) Value { return nil })
 	reg("(runtime.plainError).Error", func(g *G, fr *Frame, fn *ssa.Function, a []Value) Value { return a[0] })
 	reg("(runtime.errorString).RuntimeError", func(g *G, fr *Frame, fn *ssa.Function, a []Value) Value { return nil })
 	reg("(runtime.plainError).RuntimeError", func(g *G, fr *Frame, fn *ssa.Function, a []Value) Value { return nil })
